@@ -149,7 +149,45 @@ def step (ps : Option PartSet.PartSet) (toks : List String) : Option PartSet.Par
     | none => (ps, "bad-op")
   | _ => (ps, "bad-op")
 
-def machine : Machine := { σ := Option PartSet.PartSet, init := none, step := step }
+def showCons : ConsRes → String
+  | .errValidate => "err-validate" | .ignoredHeight => "not-added"   -- the code answers (false, nil)
+  | .ignoredNoParts => "not-added" | .errIndex => "err-index" | .errProof => "err-proof"
+  | .dup => "not-added" | .tooBig a => s!"too-big added={a}" | .added => "added" | .complete => "complete"
+
+/-- the consensus-side consumer (`cstate`/`cpart`/`cdone`) next to the plain part-set ops -/
+def step2 (st : Option PartSet.PartSet × Option PartsState) (toks : List String) :
+    (Option PartSet.PartSet × Option PartsState) × String :=
+  match toks with
+  | "cstate" :: rest =>
+    match (kv rest "h").bind String.toInt?, (kv rest "max").bind String.toInt?, kv rest "total", kv rest "root" with
+    | some h, some mx, some t, some r =>
+      if t == "none" then ((st.1, some { height := h, maxBytes := mx, parts := none, block := none }), "ok")
+      else match t.toNat?, ofHex r with
+        | some tn, some rb =>
+          ((st.1, some { height := h, maxBytes := mx, parts := some (fromHeader tn rb), block := none }), "ok")
+        | _, _ => (st, "bad-op")
+    | _, _, _, _ => (st, "bad-op")
+  | "cpart" :: rest =>
+    match st.2, (kv rest "h").bind String.toInt?, (kv rest "r").bind String.toInt?,
+          (kv rest "idx").bind String.toNat?, (kv rest "bytes").bind ofHex, parseProof rest with
+    | some cs, some h, some r, some idx, some b, some pr =>
+      let (cs', res) := consAddPart Hs cs h r { index := idx, bytes := b, proof := pr }
+      ((st.1, some cs'), showCons res)
+    | _, _, _, _, _, _ => (st, "bad-op")
+  | ["cdone"] =>
+    match st.2 with
+    | some cs =>
+      let p := match cs.parts with
+        | some ps => s!"complete={isComplete ps} count={count ps} size={byteSize ps}"
+        | none => "noparts"
+      let b := match cs.block with
+        | some bz => toHex (Hs bz)
+        | none => "nil"
+      (st, p ++ " block=" ++ b)
+    | none => (st, "bad-op")
+  | _ => let (ps', out) := step st.1 toks; ((ps', st.2), out)
+
+def machine : Machine := { σ := Option PartSet.PartSet × Option PartsState, init := (none, none), step := step2 }
 
 end Tmv.Drv.C10
 
